@@ -20,6 +20,12 @@ func NewIntegerIter[T integer](n T) Iterator[pair[T, any]] {
 	return &integerIter[T]{n: n}
 }
 
+// NewIntegerIterOf is NewIntegerIter with the type of n given by key,
+// e.g., for i = range 3, the untyped constant 3 has the type of i
+func NewIntegerIterOf[T integer](key, n T) Iterator[pair[T, any]] {
+	return NewIntegerIter(n)
+}
+
 func NewStringIter[S ~string](str S) Iterator[pair[int, rune]] {
 	return &stringIter{str: string(str)}
 }
